@@ -296,3 +296,7 @@ def setdict_status_rule(ck, P, R="ATOM/setdict-status"):
                   "deflate::set_dictionary tests `status` outside `wrap == 1`: a raw deflate stream is refused a dictionary after its "
                   "first deflate() call (zlib-ng returns Z_OK there)", where(f, t.get("line")))
     ck.floor(R, n, 1)
+
+# session 5 (round 11)
+EXPLANATION = EXPLANATION + " " + (
+    'ATOM/setdict-status (round 11): deflate::set_dictionary tests `status` only under wrap == 1 (zlib-ng accepts a dictionary for a raw stream at any block boundary).')
